@@ -101,13 +101,16 @@ impl Add<Duration> for Time {
     type Output = Time;
 
     fn add(self, rhs: Duration) -> Self::Output {
+        // Both operands can come off the wire (a receive timestamp and a
+        // correction field), so the result may fall outside of what a `Time` can
+        // represent: clamp instead of wrapping around.
         if rhs.nanos().is_negative() {
             Time {
-                inner: self.nanos() - rhs.nanos().unsigned_abs(),
+                inner: self.nanos().saturating_sub(rhs.nanos().unsigned_abs()),
             }
         } else {
             Time {
-                inner: self.nanos() + rhs.nanos().unsigned_abs(),
+                inner: self.nanos().saturating_add(rhs.nanos().unsigned_abs()),
             }
         }
     }
